@@ -9,7 +9,7 @@ LEVEL = "exploration"
 FLAVORS = ["tsan"]
 TECHNIQUE = "runtime monitoring: ThreadSanitizer build of the real Log class with a recording / gateable std::streambuf sink; offline exactly-once / FIFO / backlog checker over the recorded history"
 RULE = ("one process per run under ThreadSanitizer: the real asynchronous Log (get_for_unittest, inline=false) with a recording std::streambuf "
-        "sink that can be slowed or gated (a write blocks until the producers have attempted K more lines); 1-8 producer threads log uniquely "
+        "sink that can be slowed or gated (a write blocks until the producers have attempted K more lines; incl. a stall while the batch in flight alone fills the budget, followed by silence and shutdown); 1-8 producer threads log uniquely "
         "numbered, self-describing lines of 8 B..300 KiB with seeded yields, some threads issue DISABLE/ENABLE and kmsg records; after the "
         "producers joined the logger is destroyed. Offline checker: every line reaches the sink at most once and intact, lines of one thread "
         "in increasing order, every missing line is accounted for by the `N messages dropped` notices (sum N == number missing), nothing "
@@ -24,7 +24,36 @@ MIB = 1 << 20
 
 def gen(rng, cid, tier):
     nth = rng.choice([1, 2, 2, 3, 4, 8])
-    mode = rng.choice(["fast", "slow", "gated", "gated", "gated_big", "fill_race", "fill_race"])
+    mode = rng.choice(["fast", "slow", "gated", "gated", "gated_big", "fill_race", "fill_race", "stall_quiet"])
+    if mode == "stall_quiet":
+        # the sink stalls while the batch in flight alone (nearly) fills the 1 MiB budget, so every line logged meanwhile is
+        # dropped and nothing is queued behind it; then the sink recovers, nobody logs any more, and the logger shuts down:
+        # the pending drop count still has to come out
+        nth = rng.choice([1, 2, 4])
+        big = rng.choice([MIB - 600, MIB - 5000, 1000000])
+        small = rng.choice([9000, 20000, 60000])
+        variant = rng.choice(["one_huge", "one_huge", "mid_batch"])
+        threads_ = []
+        for t in range(nth):
+            plan = []
+            if variant == "one_huge":
+                if t == 0:
+                    plan.append({"op": "log", "len": big, "expect_silenced": False})
+                else:
+                    plan.append({"op": "sleep_us", "us": 20000})
+                plan += [{"op": "log", "len": max(small, MIB - big + 500), "expect_silenced": False} for _ in range(rng.randint(3, 40))]
+            else:
+                plan += [{"op": "log", "len": 100000, "expect_silenced": False} for _ in range(rng.randint(14, 30))]
+            threads_.append(plan)
+        nlog = sum(len([x for x in p if x["op"] == "log"]) for p in threads_)
+        if variant == "one_huge":
+            gates = [{"at_write": 0, "until_attempted": nlog}]
+        else:
+            first = rng.randint(11, 13) * 1
+            gates = [{"at_write": 0, "until_attempted": min(nlog, first)}, {"at_write": rng.randint(2, 4), "until_attempted": nlog}]
+        return {"id": cid, "seed": rng.randint(1, 10**6), "threads": threads_, "gates": gates, "slow_us": 0, "yield_us": 0,
+                "mutex_yield_ppm": rng.choice([0, 20000]), "mode": mode + ":" + variant, "silenced_thread": None,
+                "total_bytes": sum(x.get("len", 0) for p in threads_ for x in p)}
     if mode == "fill_race":
         # a blocked sink and several producers hitting the 1 MiB limit at the same moment with equal-sized lines: the
         # check "does it still fit" and the reservation must be one atomic step for the bound to hold
